@@ -51,3 +51,11 @@ Example C13_ex_polite_nonvacuous :
                     LStep TReader 0%nat false; LStep TReader 0%nat false; LStep TReader 0%nat false; LRecv 0%nat;
                     LCallUnsub 0%nat; LStep (TCall 1%nat) 0%nat false])) = [[7%N]].
 Proof. split; [apply polite_fromb_sound; vm_compute; reflexivity | vm_compute; reflexivity]. Qed.
+
+(* read from graphql/subscription.go by the translator: every subscriptionMap method that touches
+   the map holds the RWMutex, the write lock when it writes.  Rt/Ws.v models each such method
+   as one atomic step; this is the fact that makes that sound (and "no data races" on the map) *)
+From Verif Require Import Gen.Consts.
+Theorem C13_map_methods_hold_the_lock : ws_map_methods_hold_the_lock = true.
+Proof. reflexivity. Qed.
+Print Assumptions C13_map_methods_hold_the_lock.
